@@ -223,6 +223,34 @@ def c14(run, replay=None):
     if d is None or d.get("decoy") or pr.returncode != 42 or os.path.realpath(d["cwd"]) != os.path.realpath(os.path.join(rroot, "work")):
         run.violation("transfer_pid with chdir and a relative program ./tools/run: expected the program under the chdir directory (exit 42, cwd work), got rc=%r dump=%r" % (pr.returncode, d),
                       dict(script=sc, observed=dict(rc=pr.returncode, dump=d, stderr=pr.stderr.decode("utf-8", "replace")[-200:])))
+    # K39: transfer_pid inside a file that is included by a task with become: the include runs in the forked child, so
+    # the command replaces the CHILD - another PID, and the exit status reaches rash's parent wrapped
+    if nb and os.geteuid() == 0:
+        kroot = os.path.join(C.SANDBOX, "xk")
+        shutil.rmtree(kroot, ignore_errors=True)
+        os.makedirs(kroot)
+        os.chmod(kroot, 0o777)
+        open(os.path.join(kroot, "sub.rh"), "w").write("#!/usr/bin/env rash\n- command:\n    argv: [%s, execdump, x]\n    transfer_pid: true\n" % C.VH)
+        open(os.path.join(kroot, "main.rh"), "w").write("#!/usr/bin/env rash\n- include: %s/sub.rh\n  become: true\n  become_user: nobody\n" % kroot)
+        for f in ("sub.rh", "main.rh"):
+            os.chmod(os.path.join(kroot, f), 0o644)
+        dump = os.path.join(kroot, "dump.json")
+        p = subprocess.Popen([C.RASH, "--output", "raw", os.path.join(kroot, "main.rh")], stdout=subprocess.PIPE, stderr=subprocess.PIPE, cwd=kroot,
+                             env=dict(os.environ, VH_DUMP=dump, VH_EXIT="7"))
+        try:
+            p.communicate(timeout=15)
+        except subprocess.TimeoutExpired:
+            p.kill()
+        try:
+            d = json.load(open(dump))
+        except Exception:
+            d = None
+        if d is not None and d["pid"] == p.pid and p.returncode == 7:
+            pass
+        elif d is not None and d["pid"] != p.pid:
+            run.known("K39-transfer-pid-inside-become-include", "")
+        else:
+            run.violation("transfer_pid inside an include run under become: rc=%r dump=%r" % (p.returncode, d), dict(observed=dict(rc=p.returncode, dump=d)))
     # K32: the hand-over fails AFTER the main process has dropped its credentials (become + transfer_pid + a program
     # that cannot be executed) and the failure is ignored: the rest of the script runs as the other user
     if nb and os.geteuid() == 0:
@@ -315,6 +343,17 @@ def c15(run, replay=None):
         if o["rc"] != 0 or o["stdout"] != want:
             run.violation("become_user %s: expected uid/gid %d/%d inside and %d/%d afterwards, got stdout %r (rc %r)" % (bu, uid, gid, os.getuid(), os.getgid(), o["stdout"], o["rc"]),
                           dict(script=sc, observed=o))
+    # K38: a non-finite number in the store does not survive the JSON trip of a become task
+    sc = ("#!/usr/bin/env rash\n- set_vars:\n    x: .inf\n    y: 1.5\n- debug:\n    msg: \"before {{ x }} {{ y }}\"\n- command: \"true\"\n  become: true\n  become_user: nobody\n"
+          "- debug:\n    msg: \"after {{ x }} {{ y }}\"\n")
+    o = E.run_impls([dict(files={"main.rh": dict(raw=sc)}, world_writable=True)], timeout=15)[0]
+    if "before inf 1.5" in o["stdout"] and "after inf 1.5" not in o["stdout"]:
+        if "after none 1.5" in o["stdout"]:
+            run.known("K38-non-finite-number-lost-under-become", "")
+        else:
+            run.violation("become changes a variable it does not touch: %r" % o["stdout"], dict(script=sc, observed=o))
+    elif o["rc"] != 0:
+        run.violation("become with a non-finite number in the store: rc %r stdout %r" % (o["rc"], o["stdout"]), dict(script=sc, observed=o))
     # a large variable store crossing the process boundary (K31: about 1 MB used to deadlock): under a deadline
     big = ("#!/usr/bin/env rash\n- set_vars:\n    big: \"{{ 'x' * 2000000 }}\"\n- command: id -u\n  become: true\n  become_user: nobody\n  register: r\n"
            "- debug:\n    msg: \"<<big>> {{ big | length }} {{ r.output }}\"\n")
